@@ -14,6 +14,7 @@ mod filter;
 mod history;
 mod pool;
 mod render;
+mod trace_arrays;
 mod trace_sink;
 mod trace_threads;
 mod util;
@@ -64,6 +65,7 @@ fn main() {
         "trace" => match args.get(2).map(|s| s.as_str()) {
             Some("sink") => trace_sink::main(&args[3..]),
             Some("threads") => trace_threads::main(&args[3..]),
+            Some("arrays") => trace_arrays::main(&args[3..]),
             _ => 2,
         },
         _ => {
